@@ -36,6 +36,41 @@ func (e *Engine) load(st *State, p PtrV, field string, t types.Type) AVal {
 			}
 		}
 	}
+	if p.Arr != "" && !strings.HasPrefix(p.Arr, "G:") && field == "" {
+		// an element of a local array at an unknown index: if the elements 0…n-1 are
+		// all known integers and the index is below n, the value lies between them
+		known := map[int64]int64{}
+		for _, ck := range sortedCellKeys(st) {
+			c := st.cells[ck]
+			if c.P.Arr == p.Arr && c.F == "" && c.P.Idx.IsConst() {
+				if cv, ok := constOf(c.V); ok {
+					known[c.P.Idx.C] = cv
+				}
+			}
+		}
+		n := int64(0)
+		for {
+			if _, ok := known[n]; !ok {
+				break
+			}
+			n++
+		}
+		if n > 0 && int(n) == len(known) && e.proveLE(st, K(0), p.Idx) && e.proveLT(st, p.Idx, K(n)) {
+			lo, hi := known[0], known[0]
+			for _, v := range known {
+				if v < lo {
+					lo = v
+				}
+				if v > hi {
+					hi = v
+				}
+			}
+			sym := e.newSym("elem")
+			st.addLE(K(lo), V(sym))
+			st.addLE(V(sym), K(hi))
+			return IntV{V(sym)}
+		}
+	}
 	v := e.fresh(st, p, field, t)
 	if v != nil {
 		st.cells[k] = Cell{p, field, v}
@@ -216,7 +251,10 @@ func (e *Engine) loadPtr(st *State, p PtrV) AVal {
 		}
 		return sv
 	}
-	if _, ok := p.T.Underlying().(*types.Array); ok {
+	if arr, ok := p.T.Underlying().(*types.Array); ok {
+		if !strings.HasPrefix(p.Key, "G:") {
+			return ArrV{Ptr: p, Len: arr.Len()}
+		}
 		return e.unk()
 	}
 	if strings.HasPrefix(p.Key, "G:") && p.Arr == "" {
